@@ -33,6 +33,8 @@ type DB struct {
 	Rev   bool          // custom comparator: descending byte order over the whole item
 	Delta bool
 	cfg   nitro.Config
+	// rawStatsExpected: the caller guarantees that no write happened since the last NewSnapshot
+	rawStatsExpected bool
 }
 
 type DBOpt struct {
@@ -490,7 +492,17 @@ func ReconcileStats(d *DB, w *WalkReport) []string {
 			break
 		}
 	}
-	_ = st
+	// The skiplist's own statistics (writer-local parts are merged at snapshot creation and by the
+	// workers after each batch): at a checkpoint taken after NewSnapshot with no write since, they must
+	// agree with the walk as well.
+	if d.rawStatsExpected {
+		if st.NodeCount != w.Level0Linked {
+			ps = append(ps, fmt.Sprintf("Skiplist.GetStats().NodeCount=%d (merged statistics of the store) but %d nodes are linked on level 0", st.NodeCount, w.Level0Linked))
+		}
+		if m := d.N.VerifStore().MemoryInUse(); m != w.Bytes {
+			ps = append(ps, fmt.Sprintf("Skiplist.MemoryInUse()=%d (merged statistics of the store) but walk measures %d bytes", m, w.Bytes))
+		}
+	}
 	return ps
 }
 
